@@ -25,7 +25,7 @@ from ..recipes import build as B
 from ..recipes import ref as R
 
 LEVEL = "exploration"
-BUDGET_S = {"quick": 90, "thorough": 2400}
+BUDGET_S = {"quick": 420, "thorough": 2400}
 MAXLEN = {"quick": 2, "thorough": 4}
 N_RANDOM = {"quick": 6, "thorough": 200}
 
